@@ -79,21 +79,28 @@ class _Rewriter(ast.NodeTransformer):
 
 
 # ------------------------------------------------------------------ hooks
-def dec_digit(v, i):
+def dec_digit(v, i, k=None):
     """character term (21 bit) of the decimal digit of weight 10**i of a non-negative symbolic int.
-    Shared by the printf model and by specifications, so that equal renderings are syntactically equal terms."""
+    Shared by the printf model and by specifications, so that equal renderings are syntactically equal terms.  The term is
+    ZeroExt(13, 8-bit digit character), a shape that survives encode/decode of ASCII text unchanged; with k (the number of
+    digits rendered, value < 10**k on this path) it is registered so that int() of the complete rendering is the value."""
     if isinstance(v, SInt):
         w = max(v.w, 21, (10 ** (i + 1)).bit_length() + 1)
         e = v.ext(w)
         d = z3.URem(z3.UDiv(e, z3.BitVecVal(10 ** i, w)), z3.BitVecVal(10, w)) if i else z3.URem(e, z3.BitVecVal(10, w))
-        return z3.Extract(20, 0, d) + z3.BitVecVal(48, 21)
-    if isinstance(v, ZInt):
-        return z3.Int2BV((v.e / (10 ** i)) % 10 + 48, 21)
-    raise Unsupported("digits of %r" % type(v))
+        d8 = z3.simplify(z3.Extract(7, 0, d) + z3.BitVecVal(48, 8))
+    elif isinstance(v, ZInt):
+        d8 = z3.simplify(z3.Int2BV((v.e / (10 ** i)) % 10 + 48, 8))
+    else:
+        raise Unsupported("digits of %r" % type(v))
+    if k is not None and z3.is_expr(d8) and not z3.is_bv_value(d8):
+        from . import sym as _sym
+        _sym.DIGIT_ORIGIN[d8.get_id()] = (v, i, k, d8)
+    return z3.ZeroExt(13, d8)
 
 
 def _digits_of(v, n):
-    return [dec_digit(v, i) for i in range(n - 1, -1, -1)]
+    return [dec_digit(v, i, n) for i in range(n - 1, -1, -1)]
 
 
 def vfmt(fmt, args):
@@ -176,6 +183,8 @@ def vfstr(parts):
             out = out + SStr.lift(vfmt("%d", val))
         elif isinstance(val, (SInt, ZInt)) and conv == -1 and len(spec) == 3 and spec[0] == "0" and spec[1].isdigit() and spec[2] == "d":
             out = out + SStr.lift(vfmt("%" + spec, val))
+        elif isinstance(val, (SInt, ZInt, SStr, SBytes)) and conv == 114:
+            out = out + "<symbolic value>"          # {x!r}: diagnostics only
         elif isinstance(val, (SInt, ZInt, SStr, SBytes)):
             raise Unsupported("f-string conversion of symbolic %r" % type(val))
         else:
